@@ -48,7 +48,8 @@ pub fn server_message(op: &Op) -> Option<(RMsg, u32, u32)> {
             (command("_result", *txid, if stream_id.is_some() || *non_number { V::Null } else { amf::obj(vec![("fmsVer", amf::s("FMS/3"))]) }, if args.is_empty() { vec![status_obj("status", "NetConnection.Connect.Success", "ok")] } else { args }), 0, 0)
         }
         Op::Error { txid } => (command("_error", *txid, V::Null, vec![status_obj("error", "NetConnection.Connect.Rejected", "no")]), 0, 0),
-        Op::OnStatus { code, form, msid } => {
+        Op::OtherCommand { txid } => (command(if (*txid as u64) % 2 == 0 { "onBWDone" } else { "onFCPublish" }, *txid, V::Null, vec![amf::num(8192.0)]), 0, 0),
+        Op::OnStatus { code, form, msid, txid } => {
             let args = match form {
                 0 => vec![match code {
                     Some(c) => status_obj("status", c, "d"),
@@ -68,7 +69,7 @@ pub fn server_message(op: &Op) -> Option<(RMsg, u32, u32)> {
                 2 => vec![amf::s("not an object")],
                 _ => vec![amf::obj(vec![("code", amf::num(5.0))])],
             };
-            (command("onStatus", 0.0, V::Null, args), *msid, 0)
+            (command("onStatus", *txid, V::Null, args), *msid, 0)
         }
         Op::Audio { msid, ts, data } => (RMsg::Audio(data.clone()), *msid, *ts),
         Op::Video { msid, ts, data } => (RMsg::Video(data.clone()), *msid, *ts),
@@ -220,6 +221,31 @@ fn sel_tx(m: &Model, s: TxSel, rng: &mut Rng) -> f64 {
     }
 }
 
+/// one name in 250 is as long as an AMF0 string can be (65,535 bytes) or one byte shorter
+fn long_name(rng: &mut Rng) -> Option<String> {
+    if rng.chance(1, 250) {
+        let n = *rng.pick(&[65_535usize, 65_535, 65_534]);
+        let unit = *rng.pick(&["a", "\u{e9}", "\u{4e2d}"]);
+        let mut s = unit.repeat(n / unit.len());
+        while s.len() < n {
+            s.push('x');
+        }
+        Some(s)
+    } else {
+        None
+    }
+}
+
+/// transaction id of a status / unknown command: 0 as a rule, one in five the id of an
+/// outstanding transaction (which it does not answer)
+fn status_tx(m: &Model, rng: &mut Rng) -> f64 {
+    if rng.chance(1, 5) {
+        m.outstanding.keys().next().map(|x| *x as f64).unwrap_or(1.0)
+    } else {
+        0.0
+    }
+}
+
 fn sel_msid(m: &Model, s: MsidSel) -> u32 {
     match s {
         MsidSel::Active => m.active_stream.unwrap_or(5),
@@ -236,9 +262,9 @@ pub fn resolve(sym: Sym, m: &Model, rng: &mut Rng, step: usize) -> Op {
         (rng.u32_boundary(), d)
     };
     match sym {
-        Sym::RequestConnection => Op::RequestConnection { app: rng.spice(format!("app{}", step % 3)) },
-        Sym::RequestPlayback => Op::RequestPlayback { key: rng.spice(format!("key{}", step % 2)) },
-        Sym::RequestPublishing => Op::RequestPublishing { key: rng.spice(format!("key{}", step % 2)), kind: rng.pick(&["live", "record", "append"]).to_string() },
+        Sym::RequestConnection => Op::RequestConnection { app: long_name(rng).unwrap_or_else(|| rng.spice(format!("app{}", step % 3))) },
+        Sym::RequestPlayback => Op::RequestPlayback { key: long_name(rng).unwrap_or_else(|| rng.spice(format!("key{}", step % 2))) },
+        Sym::RequestPublishing => Op::RequestPublishing { key: long_name(rng).unwrap_or_else(|| rng.spice(format!("key{}", step % 2))), kind: rng.pick(&["live", "record", "append"]).to_string() },
         Sym::StopPlayback => Op::StopPlayback,
         Sym::StopPublishing => Op::StopPublishing,
         Sym::PublishMetadata => Op::PublishMetadata,
@@ -253,10 +279,11 @@ pub fn resolve(sym: Sym, m: &Model, rng: &mut Rng, step: usize) -> Op {
         Sym::SendPing => Op::SendPing,
         Sym::Result(t, form) => Op::Result { txid: sel_tx(m, t, rng), stream_id: if form == 0 { Some(*rng.pick(&[1.0, 5.0, 5.0, 7.0, 0.0])) } else { None }, non_number: form == 2 },
         Sym::Error(t) => Op::Error { txid: sel_tx(m, t, rng) },
-        Sym::StatusPlayStart => Op::OnStatus { code: Some("NetStream.Play.Start".into()), form: if rng.chance(1, 5) { 4 } else { 0 }, msid: sel_msid(m, MsidSel::Active) },
-        Sym::StatusPublishStart => Op::OnStatus { code: Some("NetStream.Publish.Start".into()), form: if rng.chance(1, 5) { 4 } else { 0 }, msid: sel_msid(m, MsidSel::Active) },
-        Sym::StatusUnknown => Op::OnStatus { code: Some(rng.pick(&["NetStream.Play.Reset", "NetStream.Play.Stop", "NetStream.Unpublish.Success", "x"]).to_string()), form: 0, msid: sel_msid(m, MsidSel::Active) },
-        Sym::StatusMalformed(f) => Op::OnStatus { code: None, form: f, msid: 0 },
+        Sym::StatusPlayStart if rng.chance(1, 12) => Op::OtherCommand { txid: status_tx(m, rng) },
+        Sym::StatusPlayStart => Op::OnStatus { code: Some("NetStream.Play.Start".into()), form: if rng.chance(1, 5) { 4 } else { 0 }, msid: sel_msid(m, MsidSel::Active) , txid: status_tx(m, rng) },
+        Sym::StatusPublishStart => Op::OnStatus { code: Some("NetStream.Publish.Start".into()), form: if rng.chance(1, 5) { 4 } else { 0 }, msid: sel_msid(m, MsidSel::Active) , txid: status_tx(m, rng) },
+        Sym::StatusUnknown => Op::OnStatus { code: Some(rng.pick(&["NetStream.Play.Reset", "NetStream.Play.Stop", "NetStream.Unpublish.Success", "x"]).to_string()), form: 0, msid: sel_msid(m, MsidSel::Active) , txid: status_tx(m, rng) },
+        Sym::StatusMalformed(f) => Op::OnStatus { code: None, form: f, msid: 0 , txid: status_tx(m, rng) },
         Sym::Audio(s) => {
             let (ts, data) = media(rng);
             Op::Audio { msid: sel_msid(m, s), ts, data }
